@@ -1,7 +1,75 @@
-"""C02: corpus-based check (back-end correspondence on the projection + oracle on the implementation's output)."""
+"""C02: corpus-based check (back-end correspondence on the projection + oracle on the implementation's output), the
+scanner of coq/Spec/Sds.v run on every emitted file, and the two escape helpers against the model (L0)."""
+import random
+
+import corpus
 import oracles
+import vlib
 from props.common import corpus_check
+
+ALPHABET = ["*", "/", "\\", '"', "\n", "\r", "\t", " ", "a", "{", "}", "`", "'", "<", ">", "-", "é", "(", ")"]
+
+
+def escape_cases(rng: random.Random, n: int) -> list[str]:
+    fixed = ["", "*/", "**/", "*/*/", "*//", "/*", "*", "/", "\\", "\\\\", '"', '\\"', "a\nb", "src/*/tests", "*\\/", "***/", "*/" * 5,
+             "\\n", 'say "hi"', "C:\\dir\\", "\r\n", "\t"]
+    out = list(fixed)
+    while len(out) < n:
+        out.append("".join(rng.choice(ALPHABET) for _ in range(rng.randrange(0, 12))))
+    return out
 
 
 def run(ctx):
-    return corpus_check(ctx, "C02", oracles.c02, l1_oracle=lambda it: oracles.files_c02(it["impl"]["stubs"]))
+    res = corpus_check(ctx, "C02", oracles.c02, l1_oracle=lambda it: oracles.files_c02(it["impl"]["stubs"]))
+    tier, seed = ctx["tier"], ctx["seed"]
+    # (1) every emitted file is lexically well formed for the scanner the closedness theorems are stated about
+    texts, where = [], []
+    for c in res.get("cases", []):
+        if c.answer.get("exc"):
+            continue
+        for path, text in corpus.impl_files(c).items():
+            texts.append(text)
+            where.append({"package": c.pkg.name, "path": path, "files": c.files,
+                          "options": {k: c.job.get(k) for k in ("docstyle", "nc", "tsp", "tsw")}})
+    for it in corpus.get_l1(seed, tier):
+        if it["impl"].get("exc"):
+            continue
+        for path, text in it["impl"]["stubs"].items():
+            if path.endswith(".sdsstub"):
+                texts.append(text)
+                where.append({"l1_api_seed": it["api_seed"], "nc": it["nc"], "path": path})
+    answers = vlib.run_model([vlib.sx(["lex", t]) for t in texts])
+    bad = 0
+    for t, w, a in zip(texts, where, answers, strict=True):
+        if a[0] not in (True, 1, "1"):
+            bad += 1
+            if bad <= 5:
+                res["violations"].append({"what": f"{w['path']} is not lexically well formed (unclosed comment, string, back-quote or "
+                                                  f"bracket; scanner of Spec/Sds.v): error={a[1]} in_code={a[2]}", "decl": w["path"],
+                                          "finding": None, "text": t[:2000], **{k: v for k, v in w.items() if k != "path"}})
+    # (2) the escape helpers against their model, and the model's own scanner on what the implementation returns
+    from safeds_stubgen.stubs_generator import _helper as H
+
+    rng = random.Random(seed + 2)
+    cases = escape_cases(rng, 400 if tier == "quick" else 4000)
+    model = vlib.run_model([vlib.sx(["escapes", t]) for t in cases])
+    impls = [[H._escape_comment_text(t), H._escape_string_content(t)] for t in cases]
+    lexed = vlib.run_model([vlib.sx(["lex", "/**\n" + i[0] + " */"]) for i in impls] + [vlib.sx(["lex", '"' + i[1] + '"']) for i in impls])
+    shown = 0
+    for k, (t, m, impl) in enumerate(zip(cases, model, impls, strict=True)):
+        if [m[0], m[1]] != impl:
+            res["disagreements"].append({"case": ["escapes", t], "impl": impl, "model": [m[0], m[1]]})
+        if lexed[k][0] not in (True, 1, "1") and shown < 5:
+            shown += 1
+            res["violations"].append({"what": f"a documentation text {t!r} is printed as {impl[0]!r}, which ends the comment early",
+                                      "input": t, "finding": None})
+        if lexed[len(cases) + k][0] not in (True, 1, "1") and shown < 5:
+            shown += 1
+            res["violations"].append({"what": f"the string value {t!r} is printed as \"{impl[1]}\", which is not one closed string literal",
+                                      "input": t, "finding": None})
+    res["evaluations"] += len(cases)
+    res["stats"]["files_scanned"] = len(texts)
+    res["stats"]["escape_cases"] = len(cases)
+    res["stats"]["escape_cases_with_terminator_or_quote"] = sum(1 for t in cases if "*/" in t or '"' in t or "\\" in t or "\n" in t)
+    res.pop("cases", None)
+    return res
